@@ -552,6 +552,18 @@ pub fn gen_script(r: &mut Rng, flavor: &str) -> String {
     if flavor == "C09" && r.coin() {
         evs.push("f:in".into());
     }
+    if (flavor == "C01" || flavor == "C10") && hs_kind == 0 && r.chance(1, 120) {
+        // a piece larger than any single write the runtime does in one go (tokio's file buffer is 2 MiB), served in order
+        let l = 2 * 1024 * 1024 + 16384 * (1 + r.below(3) as usize) + r.below(16384) as usize;
+        let i = r.below(np as u64) as usize;
+        evs.push(format!("f:un>I{},{},good", i, l));
+        let blocks = blocks_of(l);
+        for (k, (b, bl)) in blocks.iter().enumerate() {
+            let rep = if k + 1 == blocks.len() { "Ni" } else { "Ig" };
+            evs.push(format!("f:pb,{},{},{},{}>{}", i, l, b, bl, rep));
+        }
+        sh = None;
+    }
     if flavor == "C20" && !silent_start && r.chance(1, 4) {
         // assigned a piece, then silent; the piece is completed elsewhere between two ticks and another one handed out
         let (i, l) = (r.below(np as u64) as usize, piece_len(r));
